@@ -2,6 +2,7 @@
 #define _GNU_SOURCE
 #include "vlib.h"
 #include "rt_common.h"
+#include "hostile_core.h"
 #include <unistd.h>
 #include <fcntl.h>
 #include <errno.h>
@@ -84,7 +85,7 @@ static void observe_read (int route, const Fmt *f, int ch, const unsigned char *
 		if (sf)
 		{	long F = info.frames > 0 && info.frames < 100000 ? info.frames : 0 ; void *buf = calloc ((F + 4) * (info.channels > 0 ? info.channels : 1), 8) ; sf_count_t r ;
 			if (t == 0)
-			{	uint64_t h = VL_H0 ; for (int st = SF_STR_FIRST ; st <= SF_STR_LAST ; st++) { const char *s ; INLIB (s = sf_get_string (sf, st)) ; if (s) h = vl_hash (s, strlen (s), vl_hash_u64 (st, h)) ; }
+			{	uint64_t h = VL_H0 ; for (int st = SF_STR_FIRST ; st <= SF_STR_LAST ; st++) { const char *s ; INLIB (s = sf_get_string (sf, st)) ; if (s) h = vl_hash (s, strlen (s), vl_hash_u64 (st, h)) ; if (s && vl_replaying ()) vl_note ("%s string %d = '%s'", route_name [route], st, s) ; }
 				o->strings = h ;
 				}
 			r = vl_read (sf, t, 1, buf, F + 3) ;
@@ -118,20 +119,15 @@ static void build_file (const Fmt *f, int ch, long N, int with_string, unsigned 
 	*len = dev.len ; *bytes = malloc (dev.len + 1) ; memcpy (*bytes, dev.data, dev.len) ;
 }
 
-static void read_case (const Fmt *f, int ch, long N, int variant)
-{	unsigned char *bytes ; sf_count_t len ; Obs ref, o ; char rs [64] ; int major = f->format & SF_FORMAT_TYPEMASK ; uint64_t oh = VL_H0 ;
-	snprintf (rs, sizeof (rs), "read|%s%s", major_name (f->format), N == 0 ? "|N0" : "") ;
-	build_file (f, ch, N, 1, &bytes, &len) ;
-	if (! bytes) { vl_end (0, 0) ; return ; }
-	/* malformed variants: 1 truncated to half, 2 a header byte flipped, 3 empty */
-	if (variant == 1) len = len / 2 ;
-	if (variant == 2 && len > 9) bytes [8] ^= 0x5A ;
-	if (variant == 3) len = 0 ;
+/* the same bytes through every route, compared with virtual I/O. samples_only_on_pipe: files with chunks behind the audio - the
+** statement promises the same samples on a pipe, not the metadata that can only be reached by seeking past the audio */
+static uint64_t compare_routes (const Fmt *f, int ch, const unsigned char *bytes, sf_count_t len, int variant, const char *rs, int samples_only_on_pipe)
+{	Obs ref, o ; int major = f->format & SF_FORMAT_TYPEMASK ; uint64_t oh = VL_H0 ;
 	observe_read (R_VIO, f, ch, bytes, len, &ref) ;
 	for (int route = R_PATH ; route < R_NROUTES ; route++)
 	{	int is_embed = route >= R_EMBED1 && route <= R_EMBED4097, pipe_ok ;
 		if (route == R_PIPE)
-		{	pipe_ok = (major == SF_FORMAT_WAV || major == SF_FORMAT_AIFF || major == SF_FORMAT_AU) && f->gran && len < 900000 && variant == 0 ;	/* the pipe claim is about well-formed files */
+		{	pipe_ok = (major == SF_FORMAT_WAV || major == SF_FORMAT_WAVEX || major == SF_FORMAT_AIFF || major == SF_FORMAT_AU) && f->gran && len < 900000 && variant == 0 ;	/* the pipe claim is about well-formed files */
 			if (! pipe_ok) continue ;
 			}
 		if (is_embed && variant != 0) continue ;
@@ -146,7 +142,8 @@ static void read_case (const Fmt *f, int ch, long N, int variant)
 		else if (o.opened != ref.opened || (! o.opened && o.err == 0))	/* which error code is reported depends on route-specific fall-backs (file extension, resource fork): only success / failure is compared */
 			vl_violation (rt_sig ("%s|%s|open-outcome%s", rs, route_class [route], variant ? "-malformed" : ""), "opened=%d error=%d (%s) through %s, opened=%d error=%d (%s) through virtual I/O (variant %d)", o.opened, o.err, sf_error_number (o.err), route_name [route], ref.opened, ref.err, sf_error_number (ref.err), variant) ;
 		else if (o.opened)
-		{	if (! info_equal (&o.info, &ref.info, route == R_PIPE))
+		{	if (route == R_PIPE && samples_only_on_pipe) { o.info = ref.info ; o.strings = ref.strings ; }
+			if (! info_equal (&o.info, &ref.info, route == R_PIPE))
 				vl_violation (rt_sig ("%s|%s|sf-info", rs, route_class [route]), "SF_INFO differs: frames %lld/%lld rate %d/%d ch %d/%d format 0x%x/0x%x seekable %d/%d", (long long) o.info.frames, (long long) ref.info.frames,
 					o.info.samplerate, ref.info.samplerate, o.info.channels, ref.info.channels, o.info.format, ref.info.format, o.info.seekable, ref.info.seekable) ;
 			for (int t = 0 ; t < T_NTYPES ; t++)
@@ -160,7 +157,36 @@ static void read_case (const Fmt *f, int ch, long N, int variant)
 		if ((route == R_FD_KEEP || is_embed || route == R_PIPE) && ! o.fd_open_after) vl_violation (rt_sig ("%s|%s|descriptor-closed", rs, route_class [route]), "sf_close (or the failed open) closed a descriptor passed with close_desc = 0") ;
 		if (o.lib_fds_after != 0) vl_violation (rt_sig ("%s|%s|descriptor-leak", rs, route_class [route]), "%d descriptors opened by the library are still open", o.lib_fds_after) ;
 		}
+	return oh ;
+}
+
+static void read_case (const Fmt *f, int ch, long N, int variant)
+{	unsigned char *bytes ; sf_count_t len ; char rs [64] ; uint64_t oh ;
+	snprintf (rs, sizeof (rs), "read|%s%s", major_name (f->format), N == 0 ? "|N0" : "") ;
+	build_file (f, ch, N, 1, &bytes, &len) ;
+	if (! bytes) { vl_end (0, 0) ; return ; }
+	/* malformed variants: 1 truncated to half, 2 a header byte flipped, 3 empty */
+	if (variant == 1) len = len / 2 ;
+	if (variant == 2 && len > 9) bytes [8] ^= 0x5A ;
+	if (variant == 3) len = 0 ;
+	oh = compare_routes (f, ch, bytes, len, variant, rs, 0) ;
 	free (bytes) ;
+	vl_end (1, oh) ;
+}
+
+/* files that carry everything a container can carry (all metadata kinds and custom chunks in front of and behind the audio, written by
+** the library; and the hand-built ones with the chunk types it only reads): the seeds of the hostile-input checks, through every route */
+static void seed_case (const Seed *s)
+{	MemDev t ; SF_INFO ri ; SNDFILE *sf ; Fmt fake ; const Fmt *f = NULL ; char rs [64] ; uint64_t oh ;
+	md_init (&t) ; md_set (&t, s->data, s->len) ; memset (&ri, 0, sizeof (ri)) ; sf = md_open (&t, SFM_READ, &ri) ;
+	if (! sf) { md_free (&t) ; vl_note ("seed does not open") ; vl_end (0, 0) ; return ; }
+	INLIB (sf_close (sf)) ; md_free (&t) ;
+	for (int fi = 0 ; fi < fmt_count && ! f ; fi++)
+		if ((fmt_list [fi].format & (SF_FORMAT_TYPEMASK | SF_FORMAT_SUBMASK)) == (ri.format & (SF_FORMAT_TYPEMASK | SF_FORMAT_SUBMASK)) && (fmt_list [fi].format & SF_FORMAT_ENDMASK) == SF_ENDIAN_FILE) f = &fmt_list [fi] ;
+	if (! f) { memset (&fake, 0, sizeof (fake)) ; fake.format = ri.format ; snprintf (fake.name, sizeof (fake.name), "seed") ; f = &fake ; }
+	else if (! strncmp (s->name, "crafted:", 8)) { fake = *f ; fake.gran = 0 ; f = &fake ; }	/* e.g. an ID3 tag in front of the RIFF header: no pipe claim for those */
+	snprintf (rs, sizeof (rs), "read|%s|seed", s->fam) ;
+	oh = compare_routes (f, ri.channels, s->data, s->len, 0, rs, 1) ;
 	vl_end (1, oh) ;
 }
 
@@ -281,6 +307,12 @@ void harness_run (void)
 {	const char *t = getenv ("TMPDIR") ;
 	snprintf (tmpdir, sizeof (tmpdir), "%s", t && t [0] ? t : "/tmp") ;
 	fmt_build () ; md_init (&dev) ;
+	hc_build_seeds () ;
+	for (int si = 0 ; si < hc_nseeds ; si++)
+	{	const Seed *s = &hc_seeds [si] ;
+		if (s->raw_format || (strncmp (s->name, "rich:", 5) && strncmp (s->name, "crafted:", 8))) continue ;	/* the plain ones are the read cases below */
+		if (vl_case ("C14 seed name=%s", s->name)) { vl_root_count ("seed") ; seed_case (s) ; }
+		}
 	for (int fi = 0 ; fi < fmt_count ; fi++)
 	{	const Fmt *f = &fmt_list [fi] ;
 		if ((f->format & SF_FORMAT_ENDMASK) == SF_ENDIAN_CPU) continue ;
